@@ -102,6 +102,8 @@ def build(pa, rng, count, rep):
         d = make_dissim(pa, rng, kind, labels, de, alpha, beta)
         base = c.get_best_alignment(d).disorder
         tk = tks[(it // len(kinds)) % len(tks)]
+        if mixed:        # unlabelled units next to labelled ones: mostly under arbitrary renamings (which category sorts first changes)
+            tk = rng.choice(["catrename_any", "catrename_any", "catrename_any", "delta_empty", "rename"])
         it += 1
         meta = {"shape": shape, "dissim": kind, "delta_empty": de, "alpha": alpha, "beta": beta, "transform": tk, "mixed_unlabelled": mixed}
         rec = {"kind": tk, "c": [1, 1], "base": fxv(base), "other": 0, "hasgamma": 0, "gbase": 0, "gother": 0}
